@@ -1,5 +1,6 @@
 import Driver.Files
 import Driver.EngineCmd
+import Driver.FmtCmd
 open Pyctr
 
 /-- `(fileops NODE (OP …))` → one rendered output per op, then the bottom buffers -/
@@ -28,6 +29,7 @@ def handle (line : String) : String :=
     | "fileops" => handleFileOps args
     | "aesenc" | "aesdec" | "sha256" | "sha1" => handlePrim cmd args
     | "engine" => handleEngine args
+    | "exefs-parse" | "exefs-build" | "exefs-norm" | "exefs-lookup" => handleExefs cmd args
     | "ping" => "pong"
     | _ => "bad-cmd"
   | _ => "bad-line"
